@@ -230,9 +230,9 @@ func rolloutFacts(in *caseIn) roFacts {
 		case r.Disabled != (r.Phase == "Disabled"):
 			f.unclear = "disabled-in-transition"
 			shape = append(shape, "ref:dis-transition:"+tag)
-		case r.APIVersion != in.K.APIVersion:
-			f.unclear = "ref-other-version"
-			shape = append(shape, "ref:other-version:"+tag)
+		// (a reference that names another version of the workload's API group is a reference like any other: the Rollout
+		// controller's finder resolves workloadRef by group, kind and name, so such a Rollout does drive the workload and
+		// the webhook has to hold the workload for it)
 		case r.Strategy == "empty":
 			f.emptyStrat++
 			shape = append(shape, "ref:empty-strategy")
